@@ -121,6 +121,7 @@ class Scenario:
         o["alt", "A"], o["alt", "B"] = 120.0, 3000.0
         o["dt", "A"], o["dt", "B"] = 0.5, 0.25
         o["sd", "A"], o["sd", "B"] = 1.0, 0.1
+        o["ratio", "A"], o["ratio", "B"] = 4.0, 4.2          # smoothing time / sampling interval: same filter length, different cutoff
         o["flag", "A"], o["flag", "B"] = True, False
         o["lla", "A"], o["lla", "B"] = np.array([55.0, 37.0, 120.0]), np.array([-33.5, -122.0, 3000.0])
         o["ecef", "A"], o["ecef", "B"] = np.array([2927000.5, 2205600.25, 5201400.75]), np.array([-2821000.0, -4515000.5, -3500300.25])
@@ -266,8 +267,8 @@ def adapters(m):
         "transform.resample_state": lambda tr, ts: (T.resample_state(tr, ts),),
         "transform.compute_state_difference[traj]": lambda a, b: (T.compute_state_difference(a, b),),
         "transform.compute_state_difference[pva]": lambda a, b: (T.compute_state_difference(a, b),),
-        "transform.smooth_rotations": lambda r, dt: T.smooth_rotations(r, dt, 4 * dt),
-        "transform.smooth_state": lambda tr: (T.smooth_state(tr, 4 * float(np.min(np.diff(tr.index)))),),
+        "transform.smooth_rotations": lambda r, dt, ratio: T.smooth_rotations(r, dt, ratio * dt),
+        "transform.smooth_state": lambda tr, ratio: (T.smooth_state(tr, ratio * float(np.min(np.diff(tr.index)))),),
         "transform.mat_en_from_ll": lambda lat, lon: (T.mat_en_from_ll(lat, lon),),
         "transform.mat_from_rph": lambda r: (T.mat_from_rph(r),),
         "transform.mat_to_rph": lambda mt: (T.mat_to_rph(mt),),
